@@ -1,7 +1,9 @@
-(* Pipelined/ProofsRead.v — reads return the latest write wherever it lives (refinement to one plain map) *)
+(* Pipelined/ProofsRead.v — reads return the latest write wherever it lives (refinement to one plain map).
+   For a key whose delete was flushed as Op_CheckNotExists (no lock is written: the store holds nothing for it) "absent" and
+   "tombstone" are the same answer — the store asserted that the key does not exist; [eqv] says exactly that. *)
 From Verif Require Import Base.Lex Pipelined.Model Pipelined.ProofsBuf Pipelined.ProofsShape.
+From Coq Require Import Sorting.Sorted.
 
-(* what lies below the mutable buffer: flushing buffer, then the store's buffer tier *)
 Definition below (s : st) (k : key) : option value :=
   match flushing s with
   | Some (_, fb) => match lookup k fb with Some v => Some v | None => lookup k (store s) end
@@ -9,22 +11,41 @@ Definition below (s : st) (k : key) : option value :=
   end.
 Definition view (m : buf) (s : st) (k : key) : option value :=
   match lookup k m with Some v => Some v | None => below s k end.
+
+Definition tomb (a : option value) : Prop := a = None \/ a = Some [].
+Definition eqv (cs : list key) (k : key) (a b : option value) : Prop := a = b \/ (In k cs /\ tomb a /\ tomb b).
+
+Lemma eqv_refl cs k a : eqv cs k a a.
+Proof. left; reflexivity. Qed.
+Lemma eqv_sym cs k a b : eqv cs k a b -> eqv cs k b a.
+Proof. intros [->|(H1 & H2 & H3)]; [left; reflexivity|right; auto]. Qed.
+Lemma eqv_trans cs k a b c : eqv cs k a b -> eqv cs k b c -> eqv cs k a c.
+Proof. intros [->|(H1 & H2 & H3)] [<-|(H4 & H5 & H6)]; try (left; reflexivity); right; auto. Qed.
+Lemma eqv_mono cs cs' k a b : (forall x, In x cs -> In x cs') -> eqv cs k a b -> eqv cs' k a b.
+Proof. intros Hs [->|(H1 & H2 & H3)]; [left; reflexivity|right; auto]. Qed.
+
 Definition good (s : st) (e : key * option value) : Prop :=
-  lookup (fst e) (mem s) = None -> snd e = below s (fst e).
+  lookup (fst e) (mem s) = None -> eqv (cneset s) (fst e) (snd e) (below s (fst e)).
 
 Record rinv (s : st) (r : rst) : Prop := {
   ri_done : forall g fb, flushing s = Some (g, fb) -> inflight s = false ->
-            forall k v, lookup k fb = Some v -> lookup k (store s) = Some v;
-  ri_mem : forall k, view (mem s) s k = lookup k (rmap r);
-  ri_stages : Forall2 (fun m rm => forall k, view m s k = lookup k rm) (stages s) (rstages r);
-  ri_cache : forall c, cache s = Some c -> Forall (good s) c
+            forall k v, lookup k fb = Some v -> is_cne (fpne s) (k, v) = false -> lookup k (store s) = Some v;
+  ri_fcne : forall g fb, flushing s = Some (g, fb) -> forall k v, lookup k fb = Some v -> is_cne (fpne s) (k, v) = true ->
+            In k (cneset s) /\ lookup k (store s) = None;
+  ri_mem : forall k, eqv (cneset s) k (view (mem s) s k) (lookup k (rmap r));
+  ri_stages : Forall2 (fun m rm => forall k, eqv (cneset s) k (view m s k) (lookup k rm)) (stages s) (rstages r);
+  ri_cache : forall c, cache s = Some c -> Forall (good s) c;
+  ri_cs : forall k, In k (cneset s) -> lookup k (rmap r) <> None /\ Forall (fun rm => lookup k rm <> None) (rstages r);
+  ri_pne : forall k, key_in k (pne s) = true -> below s k = None;
+  ri_srt : forall g fb, flushing s = Some (g, fb) -> bsorted fb;
+  ri_msrt : bsorted (mem s) /\ Forall bsorted (stages s)
 }.
 
-Ltac proj := cbn [upd_field_mem set_cache set_stages clear_flushing start_flush mem stages flushing inflight pending
-  store cache gen closed rmap rstages seg segs segstages flog pstart pend running maxrun flen fsize].
+Ltac proj := cbn [upd_field_mem set_cache set_stages clear_flushing start_flush set_pne set_tm set_store mem stages flushing inflight
+  pending store cache gen closed rmap rstages seg segs segstages flog pstart pend running maxrun flen fsize pne fpne cneset flogp].
 
 Lemma rinv_init : rinv init {| rmap := []; rstages := [] |}.
-Proof. constructor; cbn; try discriminate; auto. Qed.
+Proof. constructor; cbn; try discriminate; auto; try tauto. - intros k; left; reflexivity. - split; constructor. Qed.
 
 Lemma get_local_view s k v : get_local s k = Some v -> view (mem s) s k = Some v.
 Proof.
@@ -42,27 +63,71 @@ Lemma Forall2_impl' {A B} (P Q : A -> B -> Prop) l l' :
   (forall a b, P a b -> Q a b) -> Forall2 P l l' -> Forall2 Q l l'.
 Proof. intros H F; induction F; constructor; auto. Qed.
 
+(* a state change that leaves mem / stages / flags / the CheckNotExists set alone and every [below] unchanged *)
 Lemma rinv_transfer s s' r :
   rinv s r -> mem s' = mem s -> stages s' = stages s -> (forall k, below s' k = below s k) ->
-  (cache s' = cache s \/ cache s' = None) ->
+  (cache s' = cache s \/ cache s' = None) -> cneset s' = cneset s -> pne s' = pne s ->
   (forall g fb, flushing s' = Some (g, fb) -> inflight s' = false ->
-     forall k v, lookup k fb = Some v -> lookup k (store s') = Some v) ->
+     forall k v, lookup k fb = Some v -> is_cne (fpne s') (k, v) = false -> lookup k (store s') = Some v) ->
+  (forall g fb, flushing s' = Some (g, fb) -> forall k v, lookup k fb = Some v -> is_cne (fpne s') (k, v) = true ->
+     In k (cneset s') /\ lookup k (store s') = None) ->
+  (forall g fb, flushing s' = Some (g, fb) -> bsorted fb) ->
   rinv s' r.
 Proof.
-  intros [H1 H2 H3 H4] Em Es Eb Ec Hd. constructor.
+  intros [H1 H1' H2 H3 H4 H5 H6 H7 H8] Em Es Eb Ec Ecs Ep Hd Hd' Hs. constructor.
   - exact Hd.
-  - intros k. unfold view. rewrite Em, Eb. apply H2.
-  - rewrite Es. eapply Forall2_impl'; [|exact H3]. intros m rm H k. unfold view. rewrite Eb. apply H.
+  - exact Hd'.
+  - intros k. unfold view. rewrite Em, Eb, Ecs. apply H2.
+  - rewrite Es, Ecs. eapply Forall2_impl'; [|exact H3]. intros m rm H k. unfold view. rewrite Eb. apply H.
   - intros c Hc. destruct Ec as [Ec|Ec]; [|congruence]. rewrite Ec in Hc. specialize (H4 c Hc).
-    eapply Forall_impl; [|exact H4]. intros e He. unfold good. rewrite Em, Eb. exact He.
+    eapply Forall_impl; [|exact H4]. intros e He. unfold good. rewrite Em, Eb, Ecs. exact He.
+  - rewrite Ecs. exact H5.
+  - intros k Hk. rewrite Eb. apply H6. rewrite <- Ep. exact Hk.
+  - exact Hs.
+  - rewrite Em, Es. exact H8.
 Qed.
 
 Lemma rinv_set_cache_none s r : rinv s r -> rinv (set_cache s None) r.
-Proof. intros H. eapply rinv_transfer; try exact H; try reflexivity; auto. apply (ri_done _ _ H). Qed.
+Proof.
+  intros H. eapply rinv_transfer; try exact H; try reflexivity; auto;
+    [apply (ri_done _ _ H)|apply (ri_fcne _ _ H)|apply (ri_srt _ _ H)].
+Qed.
 
 Lemma complete_frame s o : mem (complete s o) = mem s /\ stages (complete s o) = stages s /\ cache (complete s o) = cache s
   /\ flushing (complete s o) = flushing s /\ segstages (complete s o) = segstages s.
 Proof. unfold complete; destruct (inflight s); cbn; auto. Qed.
+
+Lemma lookup_filter_none (f : key * value -> bool) k b : lookup k b = None -> lookup k (filter f b) = None.
+Proof.
+  induction b as [|[k0 v0] t IH]; cbn [lookup filter]; [auto|].
+  destruct (bytes_eqb k k0) eqn:E; [discriminate|]. intros H. destruct (f (k0, v0)); cbn [lookup]; [rewrite E|]; auto.
+Qed.
+
+Lemma lookup_filter_first (f : key * value -> bool) k v b : lookup k b = Some v -> f (k, v) = true -> lookup k (filter f b) = Some v.
+Proof.
+  induction b as [|[k0 v0] t IH]; cbn [lookup filter]; [discriminate|].
+  destruct (bytes_eqb k k0) eqn:E.
+  - apply bytes_eqb_eq in E; subst k0. intros [= ->] Hf. rewrite Hf. cbn [lookup]. rewrite bytes_eqb_refl. reflexivity.
+  - intros H Hf. destruct (f (k0, v0)); cbn [lookup]; [rewrite E|]; auto.
+Qed.
+
+(* with distinct keys a filtered-out entry leaves nothing for its key *)
+Lemma lookup_filter_dropped (f : key * value -> bool) k v b :
+  bsorted b -> lookup k b = Some v -> f (k, v) = false -> lookup k (filter f b) = None.
+Proof.
+  unfold bsorted. induction b as [|[k0 v0] t IH]; cbn [lookup filter map fst]; [discriminate|]. intros Hs.
+  apply StronglySorted_inv in Hs as [Ht Hall].
+  destruct (bytes_eqb k k0) eqn:E.
+  - apply bytes_eqb_eq in E; subst k0. intros [= ->] Hf. rewrite Hf.
+    destruct (lookup k (filter f t)) eqn:El; [|reflexivity]. exfalso.
+    assert (Hin : In k (map fst t)).
+    { clear - El. induction t as [|[k1 v1] t IH]; cbn [filter lookup] in El; [discriminate|].
+      destruct (f (k1, v1)); cbn [lookup] in El.
+      - destruct (bytes_eqb k k1) eqn:E1; [apply bytes_eqb_eq in E1; left; auto|right; auto].
+      - right; auto. }
+    rewrite Forall_forall in Hall. apply (klt_irrefl k), Hall, Hin.
+  - intros H Hf. destruct (f (k0, v0)); cbn [lookup]; [rewrite E|]; auto.
+Qed.
 
 Lemma rinv_complete s r o : rinv s r -> closed (complete s o) = false -> rinv (complete s o) r.
 Proof.
@@ -70,25 +135,84 @@ Proof.
   cbn in Hc. apply Bool.orb_false_iff in Hc as [Hc1 Hc2]. apply Bool.negb_false_iff in Hc2.
   rewrite Hc2. eapply rinv_transfer; try exact H; try reflexivity; auto.
   - intros k. unfold below; cbn. destruct (flushing s) as [[g fb]|]; [|reflexivity].
-    rewrite lookup_overlay. destruct (lookup k fb); reflexivity.
-  - cbn. intros g fb Ef _ k v Hk. rewrite Ef, lookup_overlay, Hk. reflexivity.
+    rewrite lookup_overlay. destruct (lookup k fb) eqn:El; [reflexivity|].
+    unfold lockable. rewrite lookup_filter_none by exact El. reflexivity.
+  - cbn. intros g fb Ef _ k v Hk Hn. rewrite Ef, lookup_overlay. unfold lockable.
+    rewrite (lookup_filter_first _ k v fb Hk); [reflexivity|]. rewrite Hn; reflexivity.
+  - cbn. intros g fb Ef k v Hk Hn. destruct (ri_fcne _ _ H g fb Ef k v Hk Hn) as [A B]. split; [exact A|].
+    rewrite Ef, lookup_overlay. unfold lockable.
+    rewrite (lookup_filter_dropped _ k v fb (ri_srt _ _ H g fb Ef) Hk); [exact B|]. rewrite Hn; reflexivity.
+  - cbn. apply (ri_srt _ _ H).
 Qed.
 
+(* FlushWait / a waiting Flush forgets the flushing buffer: its lockable part is in the store, its CheckNotExists keys are
+   now absent from every tier *)
 Lemma rinv_clear s r : rinv s r -> inflight s = false -> rinv (clear_flushing s) r.
 Proof.
-  intros H Ei. eapply rinv_transfer; try exact H; try reflexivity; auto.
-  - intros k. unfold below; cbn. destruct (flushing s) as [[g fb]|] eqn:Ef; [|reflexivity].
-    destruct (lookup k fb) eqn:El; [|reflexivity]. apply (ri_done _ _ H g fb Ef Ei k v El).
-  - cbn; discriminate.
+  intros H Ei.
+  assert (Hb : forall k, eqv (cneset s) k (below (clear_flushing s) k) (below s k) /\
+                         (below s k = None -> below (clear_flushing s) k = None)).
+  { intros k. unfold below; cbn [clear_flushing flushing store]. destruct (flushing s) as [[g fb]|] eqn:Ef; [|split; [left|]; auto].
+    destruct (lookup k fb) eqn:El; [|split; [left|]; auto].
+    destruct (is_cne (fpne s) (k, v)) eqn:Ec.
+    - destruct (ri_fcne _ _ H g fb Ef k v El Ec) as [A B]. split; [|discriminate]. right. split; [exact A|]. split; [left; exact B|].
+      right. unfold is_cne in Ec. cbn [snd] in Ec. apply Bool.andb_true_iff in Ec as [Ec _]. destruct v; [reflexivity|discriminate].
+    - rewrite (ri_done _ _ H g fb Ef Ei k v El Ec). split; [left; reflexivity|discriminate]. }
+  destruct H as [H1 H1' H2 H3 H4 H5 H6 H7 H8]. constructor; proj.
+  - discriminate.
+  - discriminate.
+  - intros k. unfold view. destruct (lookup k (mem s)) eqn:Em.
+    + specialize (H2 k). unfold view in H2. rewrite Em in H2. exact H2.
+    + eapply eqv_trans; [apply (proj1 (Hb k))|]. specialize (H2 k). unfold view in H2. rewrite Em in H2. exact H2.
+  - eapply Forall2_impl'; [|exact H3]. intros m rm Hm k. specialize (Hm k). unfold view in *.
+    destruct (lookup k m); [exact Hm|]. eapply eqv_trans; [apply (proj1 (Hb k))|exact Hm].
+  - intros c Hc. specialize (H4 c Hc). eapply Forall_impl; [|exact H4]. intros e He. unfold good; proj. intros Hm.
+    eapply eqv_trans; [apply He; exact Hm|apply eqv_sym, (proj1 (Hb (fst e)))].
+  - exact H5.
+  - intros k Hk. apply (proj2 (Hb k)), H6, Hk.
+  - discriminate.
+  - exact H8.
+Qed.
+
+Lemma In_filter_keys (f : key * value -> bool) k b : In k (map fst (filter f b)) -> exists v, In (k, v) b /\ f (k, v) = true.
+Proof.
+  intros H. apply in_map_iff in H as ([k' v] & E & Hin). cbn in E; subst k'. apply filter_In in Hin as [A B]. eauto.
+Qed.
+
+Lemma lookup_In_pair k v b : lookup k b = Some v -> In (k, v) b.
+Proof.
+  induction b as [|[k0 v0] t IH]; cbn [lookup]; [discriminate|]. destruct (bytes_eqb k k0) eqn:E.
+  - apply bytes_eqb_eq in E; subst. intros [= ->]; left; reflexivity.
+  - intros H; right; auto.
 Qed.
 
 Lemma rinv_start s r : rinv s r -> flushing s = None -> stages s = [] -> cache s = None -> rinv (start_flush s) r.
 Proof.
-  intros [H1 H2 H3 H4] Ef Es Ec. constructor; cbn.
+  intros [H1 H1' H2 H3 H4 H5 H6 H7 H8] Ef Es Ec.
+  assert (Hsub : forall x, In x (cneset s) -> In x (cneset (start_flush s))) by (intros x Hx; proj; apply in_or_app; left; exact Hx).
+  assert (Hrs : rstages r = []) by (rewrite Es in H3; inversion H3; reflexivity).
+  constructor; proj.
   - discriminate.
-  - intros k. rewrite <- H2. unfold view, below; cbn. rewrite Ef. reflexivity.
+  - intros g fb [= <- <-] k v Hk Hn. split.
+    + apply in_or_app; right. apply in_map_iff. exists (k, v). split; [reflexivity|]. apply filter_In. split; [apply lookup_In_pair; exact Hk|exact Hn].
+    + unfold is_cne in Hn. cbn [fst snd] in Hn. apply Bool.andb_true_iff in Hn as [_ Hp].
+      specialize (H6 k Hp). unfold below in H6. rewrite Ef in H6. exact H6.
+  - intros k. eapply eqv_mono; [exact Hsub|]. specialize (H2 k). unfold view, below in *; proj. rewrite Ef in H2. cbn [lookup]. exact H2.
   - rewrite Es in *. inversion H3; constructor.
   - rewrite Ec; discriminate.
+  - intros k Hk. apply in_app_or in Hk as [Hk|Hk]; [apply H5; exact Hk|]. rewrite Hrs. split; [|constructor].
+    apply In_filter_keys in Hk as (v & Hin & Hc). unfold is_cne in Hc. cbn [fst snd] in Hc. apply Bool.andb_true_iff in Hc as [Hv Hp].
+    assert (Hl : lookup k (mem s) = Some v).
+    { destruct H8 as [Hs _]. clear - Hs Hin. unfold bsorted in Hs. induction (mem s) as [|[k0 v0] t IH]; [destruct Hin|].
+      cbn [map fst] in Hs. apply StronglySorted_inv in Hs as [Ht Hall]. cbn [lookup]. destruct Hin as [[= -> ->]|Hin].
+      - rewrite bytes_eqb_refl; reflexivity.
+      - destruct (bytes_eqb k k0) eqn:E; [|apply IH; assumption]. apply bytes_eqb_eq in E; subst k0. exfalso.
+        rewrite Forall_forall in Hall. apply (klt_irrefl k), Hall. apply in_map_iff. exists (k, v); auto. }
+    specialize (H2 k). unfold view in H2. rewrite Hl in H2.
+    destruct H2 as [H2|(Hin' & _ & _)]; [rewrite <- H2; discriminate|apply (proj1 (H5 k Hin'))].
+  - intros k [=].
+  - intros g fb [= <- <-]. apply H8.
+  - split; [constructor|rewrite Es; constructor].
 Qed.
 
 Lemma rinv_flush P s r f m wo : rinv s r -> closed (fst (flush P s f m wo)) = false ->
@@ -116,15 +240,26 @@ Proof.
   apply rinv_clear; [apply rinv_complete; [exact H|exact Hc]|apply complete_inflight].
 Qed.
 
+Lemma eqv_insert cs k k' v a b :
+  eqv cs k' a b ->
+  eqv cs k' (if bytes_eqb k' k then Some v else a) (if bytes_eqb k' k then Some v else b).
+Proof. destruct (bytes_eqb k' k); [intros _; left; reflexivity|auto]. Qed.
+
 Lemma rinv_write s r k v : rinv s r ->
   rinv (upd_field_mem s (insert k v (mem s)) (seg s ++ [(k, v)])) {| rmap := insert k v (rmap r); rstages := rstages r |}.
 Proof.
-  intros [H1 H2 H3 H4]. constructor; proj.
+  intros [H1 H1' H2 H3 H4 H5 H6 H7 H8]. constructor; proj.
   - exact H1.
-  - intros k'. unfold view, below; proj. rewrite !lookup_insert. destruct (bytes_eqb k' k); [reflexivity|]. apply H2.
+  - exact H1'.
+  - intros k'. specialize (H2 k'). unfold view, below in *; proj. rewrite !lookup_insert.
+    destruct (bytes_eqb k' k); [left; reflexivity|exact H2].
   - exact H3.
-  - intros c Hc. specialize (H4 c Hc). eapply Forall_impl; [|exact H4]. intros e He. unfold good, below; proj.
+  - intros c Hc. specialize (H4 c Hc). eapply Forall_impl; [|exact H4]. intros e He. unfold good, below in *; proj.
     rewrite lookup_insert. destruct (bytes_eqb (fst e) k); [discriminate|]. exact He.
+  - intros x Hx. destruct (H5 x Hx) as [A B]. split; [|exact B]. rewrite lookup_insert. destruct (bytes_eqb x k); [discriminate|exact A].
+  - exact H6.
+  - exact H7.
+  - destruct H8 as [A B]. split; [apply insert_sorted; exact A|exact B].
 Qed.
 
 Lemma fold_left_inv {A B} (f : A -> B -> A) (Q : A -> Prop) l a :
@@ -133,6 +268,7 @@ Proof.
   revert a; induction l as [|b l IH]; intros a Ha Hf; cbn [fold_left]; [exact Ha|].
   apply IH; [apply Hf; [left; reflexivity|exact Ha]|]. intros a' b' Hin. apply Hf; right; exact Hin.
 Qed.
+
 
 Lemma bget_cache_good s ks :
   Forall (good s) (match cache s with Some c => c | None => [] end) ->
@@ -144,7 +280,7 @@ Proof.
     - split; [exact H0|constructor].
     - intros [[m c] shr] k _ [Hc Hs]. destruct (get_local s k) eqn:Eg.
       + split; [|exact Hs]. constructor; [|exact Hc]. unfold good; cbn. intros Hm.
-        apply get_local_view in Eg. unfold view in Eg. rewrite Hm in Eg. symmetry; exact Eg.
+        apply get_local_view in Eg. unfold view in Eg. rewrite Hm in Eg. left. symmetry; exact Eg.
       + split; [exact Hc|]. apply Forall_app; split; [exact Hs|repeat constructor; exact Eg]. }
   destruct (bget_local s ks) as [[m c] shr]. destruct Q1 as [Hc Hs].
   match goal with |- context [fold_left ?f shr (m, c)] => set (F := fold_left f shr (m, c)) end.
@@ -152,20 +288,17 @@ Proof.
   { unfold F. apply fold_left_inv with (Q := fun acc : buf * cache_t => Forall (good s) (snd acc)); [exact Hc|].
     intros [m' c'] k Hin Hc'. rewrite Forall_forall in Hs. specialize (Hs k Hin).
     apply get_local_none in Hs as [_ Hb]. cbn [snd] in *.
-    destruct (lookup k (store s)) eqn:El; cbn [snd]; constructor; try exact Hc'; unfold good; cbn; intros _; congruence. }
+    destruct (lookup k (store s)) eqn:El; cbn [snd]; constructor; try exact Hc'; unfold good; cbn; intros _; left; congruence. }
   destruct F as [m2 c2]. exact Q2.
 Qed.
 
 Lemma rinv_bget s r ks : rinv s r -> rinv (set_cache s (Some (snd (fst (bget s ks))))) r.
 Proof.
-  intros H. destruct H as [H1 H2 H3 H4]. constructor; cbn.
-  - exact H1.
-  - exact H2.
-  - exact H3.
-  - intros c [= <-]. pose proof (bget_cache_good s ks) as Hg.
-    assert (Forall (good s) (snd (fst (bget s ks)))) as Hc.
-    { apply Hg. destruct (cache s) eqn:Ec; [apply H4; reflexivity|constructor]. }
-    eapply Forall_impl; [|exact Hc]. intros e He; exact He.
+  intros H. destruct H as [H1 H1' H2 H3 H4 H5 H6 H7 H8]. constructor; proj; try assumption.
+  intros c [= <-]. pose proof (bget_cache_good s ks) as Hg.
+  assert (Forall (good s) (snd (fst (bget s ks)))) as Hc.
+  { apply Hg. destruct (cache s) eqn:Ec; [apply H4; reflexivity|constructor]. }
+  eapply Forall_impl; [|exact Hc]. intros e He; exact He.
 Qed.
 
 (* a mutation of the flush in flight reaching the store early stays hidden behind the flushing buffer *)
@@ -174,19 +307,53 @@ Proof.
   intros H. unfold store_step. destruct (inflight s) eqn:Ei; [|exact H].
   destruct (flushing s) as [[g fb]|] eqn:Ef; [|exact H].
   destruct (nth_error fb (N.to_nat i)) as [[k v]|] eqn:En; [|exact H].
+  destruct (is_cne (fpne s) (k, v)) eqn:Ecn; [exact H|].
+  assert (Hkin : exists w, lookup k fb = Some w).
+  { apply nth_error_In in En. apply In_lookup. apply in_map_iff. exists (k, v); auto. }
   eapply rinv_transfer; try exact H; try reflexivity; auto.
   - intros k'. unfold below; cbn [set_store flushing store]. rewrite Ef, lookup_insert.
     destruct (lookup k' fb) eqn:El; [reflexivity|]. destruct (bytes_eqb k' k) eqn:E; [|reflexivity].
-    apply bytes_eqb_eq in E; subst k'. exfalso. apply nth_error_In in En.
-    assert (Hin : In k (map fst fb)) by (apply in_map_iff; exists (k, v); auto).
-    apply In_lookup in Hin as [w Hw]. congruence.
+    apply bytes_eqb_eq in E; subst k'. destruct Hkin as [w Hw]. congruence.
   - cbn [set_store flushing inflight store]. intros g' fb' _ Hi. congruence.
+  - cbn [set_store flushing store fpne cneset]. intros g' fb' Ef' k' v' Hk' Hn'. rewrite Ef in Ef'. injection Ef' as <- <-.
+    destruct (ri_fcne _ _ H g fb Ef k' v' Hk' Hn') as [A B]. split; [exact A|].
+    rewrite lookup_insert. destruct (bytes_eqb k' k) eqn:E; [|exact B].
+    apply bytes_eqb_eq in E; subst k'. exfalso.
+    (* k is lockable (its entry in fb is (k,v), not CheckNotExists) while k' = k is claimed CheckNotExists *)
+    assert (Hv : lookup k fb = Some v).
+    { pose proof (ri_srt _ _ H g fb Ef) as Hs. apply nth_error_In in En. clear - Hs En. unfold bsorted in Hs.
+      induction fb as [|[k0 v0] t IH]; [destruct En|]. cbn [map fst] in Hs. apply StronglySorted_inv in Hs as [Ht Hall].
+      cbn [lookup]. destruct En as [[= -> ->]|Hin]; [rewrite bytes_eqb_refl; reflexivity|].
+      destruct (bytes_eqb k k0) eqn:E; [|apply IH; assumption]. apply bytes_eqb_eq in E; subst k0. exfalso.
+      rewrite Forall_forall in Hall. apply (klt_irrefl k), Hall. apply in_map_iff. exists (k, v); auto. }
+    rewrite Hv in Hk'. injection Hk' as <-. congruence.
+  - cbn [set_store flushing]. apply (ri_srt _ _ H).
 Qed.
 
-Lemma rinv_step P s r o : shape s -> rinv s r -> closed (fst (step P s o)) = false ->
+(* SetWithFlags(presumeKeyNotExists) on a key the transaction has not written *)
+Lemma rinv_insert s r k v : rinv s r -> lookup k (rmap r) = None ->
+  rinv (set_pne (upd_field_mem s (insert k v (mem s)) (seg s ++ [(k, v)])) (if key_in k (pne s) then pne s else k :: pne s))
+       {| rmap := insert k v (rmap r); rstages := rstages r |}.
+Proof.
+  intros H Hn. pose proof (rinv_write s r k v H) as Hw.
+  assert (Hnc : ~ In k (cneset s)) by (intros Hc; apply (proj1 (ri_cs _ _ H k Hc)); exact Hn).
+  assert (Hb : below s k = None).
+  { pose proof (ri_mem _ _ H k) as Hm. rewrite Hn in Hm. unfold view in Hm.
+    destruct (lookup k (mem s)); destruct Hm as [Hm|(Hc & _)]; try congruence; contradiction. }
+  destruct Hw as [H1 H1' H2 H3 H4 H5 H6 H7 H8]. constructor; proj; try assumption.
+  intros k' Hk'. unfold below in *; proj.
+  destruct (key_in k (pne s)) eqn:Ek; [apply (ri_pne _ _ H); exact Hk'|].
+  cbn [key_in existsb] in Hk'. apply Bool.orb_true_iff in Hk' as [Hk'|Hk']; [|apply (ri_pne _ _ H); exact Hk'].
+  apply bytes_eqb_eq in Hk'; subst k'. exact Hb.
+Qed.
+
+Definition op_pre (r : rst) (o : op) : Prop :=
+  match o with OInsert k _ => lookup k (rmap r) = None | _ => True end.
+
+Lemma rinv_step P s r o : shape s -> rinv s r -> op_pre r o -> closed (fst (step P s o)) = false ->
   rinv (fst (step P s o)) (rstep r o).
 Proof.
-  intros Hs H. destruct o; cbn [step rstep].
+  intros Hs H Hpre. destruct o; cbn [step rstep].
   - destruct (is_nil v); cbn [fst]; intros _; [exact H|apply rinv_write; exact H].
   - cbn [fst]; intros _. apply rinv_write; exact H.
   - destruct (get s k); intros _; exact H.
@@ -195,40 +362,56 @@ Proof.
   - apply rinv_flush; exact H.
   - cbn [fst]. apply rinv_complete; exact H.
   - apply rinv_flush_wait; exact H.
-  - cbn [fst]; intros _. destruct H as [H1 H2 H3 H4]. constructor; cbn; auto.
+  - cbn [fst]; intros _. destruct H as [H1 H1' H2 H3 H4 H5 H6 H7 H8]. constructor; proj; auto.
+    + intros x Hx. destruct (H5 x Hx) as [A B]. split; [exact A|constructor; assumption].
+    + destruct H8 as [A B]. split; [exact A|constructor; assumption].
   - intros _. pose proof (sh_stages _ Hs) as Hl. pose proof (ri_stages _ _ H) as H3.
     destruct (stages s) as [|m t] eqn:E1, (segstages s) as [|sg t'] eqn:E2; cbn in Hl; try discriminate; cbn [fst].
     + inversion H3 as [Hr|]. exact H.
-    + inversion H3 as [|m0 rm0 t0 rt0 Hh Ht [Ea Eb] Er]. destruct H as [H1 H2 _ H4]. constructor; proj; auto.
+    + inversion H3 as [|m0 rm0 t0 rt0 Hh Ht [Ea Eb] Er]. destruct H as [H1 H1' H2 _ H4 H5 H6 H7 H8]. constructor; proj; auto.
+      * intros x Hx. destruct (H5 x Hx) as [A B]. rewrite <- Er in B. inversion B; subst. split; assumption.
+      * rewrite E1 in H8. destruct H8 as [A B]. inversion B; subst. split; assumption.
   - intros _. pose proof (sh_stages _ Hs) as Hl. pose proof (ri_stages _ _ H) as H3.
     destruct (stages s) as [|m t] eqn:E1, (segstages s) as [|sg t'] eqn:E2; cbn in Hl; try discriminate; cbn [fst].
     + inversion H3 as [Hr|]. exact H.
-    + inversion H3 as [|m0 rm0 t0 rt0 Hh Ht [Ea Eb] Er]. destruct H as [H1 H2 _ H4]. constructor; proj; auto. discriminate.
+    + inversion H3 as [|m0 rm0 t0 rt0 Hh Ht [Ea Eb] Er]. destruct H as [H1 H1' H2 _ H4 H5 H6 H7 H8]. constructor; proj; auto.
+      * discriminate.
+      * intros x Hx. destruct (H5 x Hx) as [A B]. rewrite <- Er in B. inversion B; subst. split; assumption.
+      * rewrite E1 in H8. destruct H8 as [A B]. inversion B; subst. split; assumption.
   - intros _; exact H.
   - intros _; exact H.
   - intros _. cbn [fst]. apply rinv_store_step; exact H.
   - cbn [fst]. unfold complete_exist. destruct (inflight s) eqn:Ei; [|intros _; exact H]. intros Hc.
     assert (Hc' : closed (complete s false) = false) by exact Hc.
     pose proof (rinv_complete s r false H Hc') as H1.
-    eapply rinv_transfer; try exact H1; try reflexivity; auto. apply (ri_done _ _ H1).
+    eapply rinv_transfer; try exact H1; try reflexivity; auto; [apply (ri_done _ _ H1)|apply (ri_fcne _ _ H1)|apply (ri_srt _ _ H1)].
   - intros _. cbn [fst]. unfold tm_start. destruct (_ && _); [|exact H].
-    eapply rinv_transfer; try exact H; try reflexivity; auto. apply (ri_done _ _ H).
-  - intros _. cbn [fst]. eapply rinv_transfer; try exact H; try reflexivity; auto. apply (ri_done _ _ H).
+    eapply rinv_transfer; try exact H; try reflexivity; auto; [apply (ri_done _ _ H)|apply (ri_fcne _ _ H)|apply (ri_srt _ _ H)].
+  - intros _. cbn [fst]. eapply rinv_transfer; try exact H; try reflexivity; auto; [apply (ri_done _ _ H)|apply (ri_fcne _ _ H)|apply (ri_srt _ _ H)].
+  - intros _; exact H.
+  - destruct (is_nil v); cbn [fst]; intros _; [exact H|]. apply rinv_insert; [exact H|exact Hpre].
   - intros _; exact H.
 Qed.
 
-Lemma rinv_run_from P ops : forall s r, shape s -> rinv s r -> closed (run_from P s ops) = false ->
+Lemma presume_ok_from_cons r o t : presume_ok_from r (o :: t) = true -> op_pre r o /\ presume_ok_from (rstep r o) t = true.
+Proof.
+  cbn [presume_ok_from]. intros H. apply Bool.andb_true_iff in H as [A B]. split; [|exact B].
+  destruct o; cbn; auto. destruct (lookup k (rmap r)); [discriminate|reflexivity].
+Qed.
+
+Lemma rinv_run_from P ops : forall s r, shape s -> rinv s r -> presume_ok_from r ops = true -> closed (run_from P s ops) = false ->
   rinv (run_from P s ops) (fold_left rstep ops r).
 Proof.
-  unfold run_from. induction ops as [|o t IH]; intros s r Hs H Hc; cbn [fold_left] in *; [exact H|].
+  unfold run_from. induction ops as [|o t IH]; intros s r Hs H Hp Hc; cbn [fold_left] in *; [exact H|].
+  apply presume_ok_from_cons in Hp as [Hp1 Hp2].
   assert (Hc1 : closed (fst (step P s o)) = false).
   { destruct (closed (fst (step P s o))) eqn:E; [|reflexivity].
     pose proof (closed_run_from P _ t E) as X. unfold run_from in X. congruence. }
-  apply IH; [apply shape_step; exact Hs|apply rinv_step; assumption|exact Hc].
+  apply IH; [apply shape_step; exact Hs|apply rinv_step; assumption|exact Hp2|exact Hc].
 Qed.
 
-Lemma rinv_run P ops : closed (run P ops) = false -> rinv (run P ops) (rrun ops).
-Proof. intros H. apply rinv_run_from; [apply shape_init|apply rinv_init|exact H]. Qed.
+Lemma rinv_run P ops : presume_ok ops = true -> closed (run P ops) = false -> rinv (run P ops) (rrun ops).
+Proof. intros Hp H. apply rinv_run_from; [apply shape_init|apply rinv_init|exact Hp|exact H]. Qed.
 
 (* ---- the read operations return the view *)
 Lemma clookup_In k c o : clookup k c = Some o -> In (k, o) c.
@@ -238,14 +421,18 @@ Proof.
   apply bytes_eqb_eq in E; subst. intros [= ->]; left; reflexivity.
 Qed.
 
-Lemma get_view s r k : rinv s r -> fst (get s k) = lookup k (rmap r).
+
+Lemma get_is_view s r k : rinv s r -> eqv (cneset s) k (fst (get s k)) (view (mem s) s k).
 Proof.
-  intros H. rewrite <- (ri_mem _ _ H). unfold get. destruct (get_local s k) eqn:Eg.
-  - cbn [fst]. symmetry; apply get_local_view; exact Eg.
+  intros H. unfold get. destruct (get_local s k) eqn:Eg.
+  - cbn [fst]. left. symmetry; apply get_local_view; exact Eg.
   - apply get_local_none in Eg as [Em Eb]. unfold view; rewrite Em.
     destruct (cache s) as [c|] eqn:Ec.
-    + destruct (clookup k c) as [o|] eqn:El; cbn [fst]; [|symmetry; exact Eb].
+    + destruct (clookup k c) as [o|] eqn:El; cbn [fst]; [|left; symmetry; exact Eb].
       apply clookup_In in El. pose proof (ri_cache _ _ H c Ec) as Hg. rewrite Forall_forall in Hg.
       apply (Hg _ El). exact Em.
-    + cbn [fst]. symmetry; exact Eb.
+    + cbn [fst]. left; symmetry; exact Eb.
 Qed.
+
+Lemma get_view s r k : rinv s r -> eqv (cneset s) k (fst (get s k)) (lookup k (rmap r)).
+Proof. intros H. eapply eqv_trans; [apply (get_is_view s r k H)|apply (ri_mem _ _ H)]. Qed.
